@@ -45,6 +45,9 @@ pub const UNFORMATTED: &[&str] = &[
     "",
     "\n\n\n",
     "local   t = 1\n\n\n\n",
+    // multi-byte characters (early in the text: short reads split them)
+    "-- ✓✓ é ü 漢字\nlocal   s = \"héllo wörld ✓\"\n",
+    "local   t = { \"日本語\",  'ключ' }\n",
     // formatted except for the line terminators / the final newline
     "local a = 1\r\nlocal b = 2\r\n",
     "local q = 1",
@@ -178,13 +181,36 @@ pub fn editorconfig_text(rng: &mut Rng) -> String {
 // schedules
 
 pub fn random_sched(rng: &mut Rng) -> Sched {
-    let strategy = rng.pick_weighted(&[("uniform", 25), ("sticky", 20), ("pct", 15), ("starve", 15), ("conflict", 25)]);
+    let strategy = rng.pick_weighted(&[("uniform", 20), ("sticky", 18), ("pct", 14), ("starve", 14), ("conflict", 20), ("delay", 14)]);
     Sched {
         strategy: strategy.to_string(),
+        target: if strategy == "delay" {
+            rng.pick(&[
+                "atomic.i32",
+                "atomic.usize",
+                "atomic.u32",
+                "chan.send",
+                "chan.recv",
+                "fs.write.open",
+                "fs.write.data",
+                "fs.write.close",
+                "fs.read",
+                "lib.format_code",
+                "mutex.lock",
+                "condvar",
+                "thread.spawn",
+                "thread.finish",
+                "stdout",
+            ])
+            .to_string()
+        } else {
+            String::new()
+        },
         seed: rng.next(),
         p: match strategy {
             "sticky" => rng.pick(&[50, 80, 95]),
             "starve" => rng.pick(&[2, 10, 30]),
+            "delay" => rng.pick(&[0, 5, 20]),
             _ => 50,
         },
         d: rng.range(1, 3) as u32,
@@ -363,6 +389,47 @@ fn maybe_cwd_config(rng: &mut Rng, w: &mut World) {
     }
 }
 
+/// Natural permission faults: the CLI runs as an unprivileged user and some selected files are
+/// read-only (0444) or unreadable (0200), or a leaf directory cannot be read (0000).  These reach
+/// the program through the real OS, whatever API it uses.
+fn add_permission_faults(rng: &mut Rng, w: &mut World, opts: &Opts) {
+    w.unpriv = true;
+    let sel = model::select(w, opts);
+    let cands: Vec<String> = sel.selected.iter().cloned().collect();
+    if cands.is_empty() {
+        return;
+    }
+    let n = rng.range(1, 2);
+    for _ in 0..n {
+        let f: String = rng.pick(&cands);
+        match rng.below(10) {
+            0..=4 => {
+                w.modes.insert(f, 0o444);
+            }
+            5..=7 => {
+                w.modes.insert(f, 0o200);
+            }
+            _ => {
+                // a leaf directory below the working directory that holds only Lua files and is
+                // not itself named on the command line
+                if let Some((dir, _)) = f.rsplit_once('/') {
+                    let dir = dir.to_string();
+                    let is_arg = opts.files.iter().any(|a| crate::world::world_rel(&w.cwd, a).as_deref() == Some(&dir));
+                    let only_lua = w.files.keys().filter(|k| k.starts_with(&format!("{dir}/"))).all(|k| {
+                        !k[dir.len() + 1..].contains('/') && (k.ends_with(".lua") || k.ends_with(".luau"))
+                    });
+                    let explicit_inside = opts.files.iter().any(|a| {
+                        crate::world::world_rel(&w.cwd, a).map(|p| p.starts_with(&format!("{dir}/"))).unwrap_or(false)
+                    });
+                    if dir != w.cwd && !is_arg && only_lua && !explicit_inside {
+                        w.modes.insert(dir, 0o000);
+                    }
+                }
+            }
+        }
+    }
+}
+
 // ---------------------------------------------------------------------------------------------
 // W-status (C13, C19): check-mode worlds
 
@@ -370,14 +437,19 @@ pub fn gen_status(rng: &mut Rng) -> Case {
     let mut w = base_world();
     maybe_cwd_config(rng, &mut w);
     let n = rng.range(1, max_files(7, 12));
-    let files = populate(
-        rng,
-        &mut w,
-        n,
-        &[(Class::Formatted, 30), (Class::Unformatted, 40), (Class::Unparseable, 18), (Class::NonUtf8, 6), (Class::Probe, 6)],
-    );
+    // a third of the worlds are healthy (statuses 0 and 1 only): the fault-free configuration is
+    // sampled on its own so that the relaxations made for faults cannot hide an ordinary bug
+    let healthy = rng.chance(35);
+    let classes: &[(Class, u64)] = if healthy {
+        &[(Class::Formatted, 55), (Class::Unformatted, 38), (Class::Probe, 7)]
+    } else {
+        &[(Class::Formatted, 30), (Class::Unformatted, 40), (Class::Unparseable, 18), (Class::NonUtf8, 6), (Class::Probe, 6)]
+    };
+    let files = populate(rng, &mut w, n, classes);
     let mut args = simple_args(rng, &files);
-    add_missing_args(rng, &mut args);
+    if !healthy {
+        add_missing_args(rng, &mut args);
+    }
     let mut opts = Opts { check: true, num_threads: random_threads(rng), files: args, ..Default::default() };
     opts.output_format = rng
         .pick_weighted(&[(None, 30), (Some("standard"), 10), (Some("unified"), 20), (Some("json"), 20), (Some("summary"), 20)])
@@ -397,11 +469,29 @@ pub fn gen_status(rng: &mut Rng) -> Case {
     // read faults on selected files
     let mut faults = Vec::new();
     let sel = model::select(&w, &opts);
+    if healthy {
+        let inv = Invocation { opts, stdin: None, faults, sched: random_sched(rng), dir_key: rng.next() };
+        return Case { family: "status-healthy".into(), world: w, invs: vec![inv] };
+    }
     if rng.chance(30) {
         let cands: Vec<&String> = sel.selected.iter().collect();
         if !cands.is_empty() {
             let f = rng.pick(&cands);
             faults.push(fault("fs.read", f, rng.pick(&["EACCES", "EIO"])));
+        }
+    }
+    if rng.chance(10) {
+        add_permission_faults(rng, &mut w, &opts);
+    }
+    // "…or verified": a verification failure / a formatter crash on one of the selected files
+    if rng.chance(12) {
+        let cands: Vec<&String> = sel.selected.iter().collect();
+        if !cands.is_empty() {
+            let f: &String = rng.pick(&cands);
+            let kind = if opts.verify && rng.chance(60) { "verify" } else { "panic" };
+            if !faults.iter().any(|x: &Fault| x.path == format!("$W/{f}")) {
+                faults.push(fault("format", f, kind));
+            }
         }
     }
     // stream faults on the diff output: EINTR / short writes must be invisible, EPIPE is an error
@@ -466,6 +556,13 @@ pub fn gen_write(rng: &mut Rng) -> Case {
                 faults.push(fl);
             }
         }
+    }
+    if rng.chance(8) && !cands.is_empty() {
+        let f: &String = rng.pick(&cands);
+        faults.push(fault("fs.canonicalize", f, rng.pick(&["EIO", "EACCES"])));
+    }
+    if rng.chance(12) && !abort {
+        add_permission_faults(rng, &mut w, &opts);
     }
     let inv1 = Invocation { opts: opts.clone(), stdin: None, faults, sched: random_sched(rng), dir_key: rng.next() };
     let mut invs = vec![inv1];
@@ -573,6 +670,20 @@ pub fn gen_config(rng: &mut Rng) -> Case {
         opts.files = vec![".".into()];
     } else {
         let mut fs: Vec<String> = targets.iter().map(|t| rel(t)).collect();
+        rng.shuffle(&mut fs);
+        opts.files = fs;
+    }
+    // a symbolic link to a file outside the working directory, named explicitly: the
+    // configuration is the one found from the link's directory, not the target's
+    if opts.files != vec!["-".to_string()] && rng.chance(12) {
+        let o = random_option_set(rng, 3);
+        w.files.insert("outer/elsewhere/stylua.toml".into(), toml_text(&o).into_bytes());
+        w.files.insert("outer/elsewhere/real.lua".into(), PROBE.as_bytes().to_vec());
+        let up = if cwd_sub { "../../elsewhere/real.lua" } else { "../elsewhere/real.lua" };
+        w.symlinks.insert(format!("{}/lk.lua", w.cwd), up.to_string());
+        // explicit files only: what a directory walk does with links is not specified
+        let mut fs: Vec<String> = targets.iter().map(|t| rel(t)).collect();
+        fs.push("lk.lua".into());
         rng.shuffle(&mut fs);
         opts.files = fs;
     }
@@ -716,7 +827,14 @@ fn gen_select_once(rng: &mut Rng) -> Case {
         }
     }
     opts.files = args;
-    let inv = Invocation { opts, stdin: None, faults: vec![], sched: random_sched(rng), dir_key: rng.next() };
+    let mut faults = Vec::new();
+    if opts.files.len() == 1 && rng.chance(12) {
+        // realpath fails for one file: it must still be processed (once).  Only with a single
+        // argument: without realpath two spellings of one file cannot be told apart.
+        let f: String = rng.pick(&all);
+        faults.push(fault("fs.canonicalize", &f, "EIO"));
+    }
+    let inv = Invocation { opts, stdin: None, faults, sched: random_sched(rng), dir_key: rng.next() };
     Case { family: "select".into(), world: w, invs: vec![inv] }
 }
 
@@ -748,6 +866,14 @@ pub fn gen_stdin(rng: &mut Rng, big: bool) -> Case {
         3 => PROBE.as_bytes().to_vec(),
         4 => PROBE.replace('\n', "\r\n").into_bytes(),
         6 => "\u{feff}local   bom = 1\n".as_bytes().to_vec(),
+        7 if rng.chance(12) => {
+            // larger than a pipe buffer (64 KiB): output must not be cut at any internal limit
+            let mut s = String::new();
+            for i in 0..2600 {
+                s.push_str(&format!("local   v{i} = {{ {i},  {i} }}\n"));
+            }
+            s.into_bytes()
+        }
         5 if big => {
             let mut s = String::new();
             let reps = 2000 + rng.below(20000);
